@@ -613,6 +613,7 @@ func checkC20(tier string, seed int64) int {
 	}
 	rounds := 40
 	var lost atomic.Int32
+	var fullBacklogs atomic.Int64
 	for r := 0; r < rounds; r++ {
 		if lost.Load() >= 2 {
 			break
@@ -620,14 +621,20 @@ func checkC20(tier string, seed int64) int {
 		q := gohlslib.NewVerifSegmentQueue()
 		ctx, cancel := context.WithCancel(context.Background())
 		n := stressOps / rounds
+		// the thresholds the client uses (1: one segment ahead; 10: queued Low-Latency parts) and
+		// their neighbours
+		thr := []int{0, 1, 2, 10, 1, 10, 3, 10}[r%8]
 		var wg sync.WaitGroup
 		var got []int
+		var pushed, prodDone atomic.Int64
 		wg.Add(2)
 		go func() {
 			defer wg.Done()
+			defer prodDone.Store(1)
 			for i := 0; i < n; i++ {
 				q.Push([]byte{byte(i), byte(i >> 8), byte(i >> 16)})
-				if !q.WaitUntilSizeIsBelow(ctx, r%3) {
+				pushed.Add(1)
+				if !q.WaitUntilSizeIsBelow(ctx, thr) {
 					return
 				}
 			}
@@ -635,6 +642,18 @@ func checkC20(tier string, seed int64) int {
 		go func() {
 			defer wg.Done()
 			for i := 0; i < n; i++ {
+				if i%37 == 0 {
+					// a stalled processor: let the producer run into its throttle (a full backlog is
+					// thr+1 entries: it pushes first and waits afterwards). Workload shaping only,
+					// bounded by yields.
+					for y := 0; y < 20000 && prodDone.Load() == 0; y++ {
+						if l, ok := q.TryLen(); ok && l > thr {
+							fullBacklogs.Add(1)
+							break
+						}
+						runtime.Gosched()
+					}
+				}
 				b, ok := q.Pull(ctx)
 				if !ok {
 					return
@@ -651,7 +670,12 @@ func checkC20(tier string, seed int64) int {
 		case <-done:
 		case <-time.After(10 * time.Second):
 			lost.Add(1)
-			rep.Report("C20/stress-deadlock", fmt.Sprintf("stress round %d: producer and consumer stopped making progress (queue length %d, %d of %d delivered)", r, tryLen(q), len(got), n), map[string]any{"property": "C20", "stress_round": r})
+			if l, ok := q.TryLen(); ok && l == 0 && prodDone.Load() == 1 && int(pushed.Load()) == n {
+				// (got is read while the consumer is parked in pull: it cannot be appending)
+				rep.Report("C20/stress-lost", fmt.Sprintf("stress round %d (threshold %d): the producer pushed all %d elements and returned, the queue is empty and the consumer still waits: elements were pushed and never delivered", r, thr, n), map[string]any{"property": "C20", "stress_round": r})
+			} else {
+				rep.Report("C20/stress-deadlock", fmt.Sprintf("stress round %d (threshold %d): producer and consumer stopped making progress (queue length %d, %d pushed of %d)", r, thr, tryLen(q), pushed.Load(), n), map[string]any{"property": "C20", "stress_round": r})
+			}
 		}
 		cancel()
 		<-done
@@ -663,6 +687,7 @@ func checkC20(tier string, seed int64) int {
 		}
 		obs["stress_ops"] += 2 * len(got)
 	}
+	obs["stress_full_backlogs_seen"] = int(fullBacklogs.Load())
 	// (c) end-to-end: an origin much faster than real time (VOD, everything available at once)
 	nE2E := 120
 	if tier == "thorough" {
